@@ -15,7 +15,7 @@ from mcheck.core.runner import Ctx, Result, Violation
 from mcheck.props import applycommon as AC
 
 ID = "C16"
-PLACEMENTS = ["top", "after_docstring", "after_future", "in_function", "in_type_checking", "after_code", "type_checking_in_try", "in_try", "in_with", "in_for", "in_class"]
+PLACEMENTS = ["top", "after_docstring", "after_future", "in_function", "in_type_checking", "after_code", "type_checking_in_try", "in_try", "in_with", "in_for", "in_class", "next_to_if_on_call_attribute"]
 FORMS = ["import_pkg", "import_sub", "from_import", "from_import_as", "from_star", "import_as"]
 USES = [True, False]
 STUBKINDS = ["new_user_module", "typing_name", "already_imported_name", "typed_dict", "same_module_other_name", "no_new_import", "user_module_named_like_typing", "same_short_name_other_module"]
@@ -59,6 +59,9 @@ def gen_source(pl: str, form: str, use: bool) -> Tuple[str, str]:
         L += ["import os", stmt, "try:", "    from typing import TYPE_CHECKING", "except ImportError:", "    TYPE_CHECKING = False"]
     elif pl == "after_code":
         L += ["import os", "VALUE = os.sep", stmt]
+    elif pl == "next_to_if_on_call_attribute":
+        # an ordinary module-level `if` whose test is an attribute of a call result (`if get_settings().debug:`)
+        L += ["import os", stmt, "class _Settings:", "    debug = False", "def _settings():", "    return _Settings()", "if _settings().debug:", "    VALUE = os.sep", "if os.path.sep:", "    VALUE2 = 1"]
     elif pl == "in_try":
         L += ["import os", "try:", "    " + stmt, "except ImportError:", "    shp = Circle = C = S = None"]
     elif pl == "in_with":
@@ -160,6 +163,17 @@ def check(src: str, stub: str, res: str, case: Dict[str, Any]) -> List[Tuple[str
             continue
         if where == "module":
             out.append(("confinement", "new-import-not-confined:" + case["stub"], f"new import {item[:3]} needed only by annotations sits at module level"))
+    # 3b. whatever the stub imports for its annotations is imported SOMEWHERE in the result (module level, TYPE_CHECKING
+    #     block, or bound by an import the source already had): an annotation must not lose its import on the way
+    have = {(i[0], i[1]) for i in rinv} | {(i[0], "*") for i in rinv if i[1] == "*"}
+    for smod, sname in sorted(stub_imps):
+        if smod in ("typing", "__future__", "mypy_extensions") or smod == case.get("own_module"):
+            continue
+        if (smod, sname) in have or (smod, "*") in have or (smod, "") in have or any(i[0] == smod and i[1] == "" for i in rinv):
+            continue
+        if any(i[0].startswith(smod.split(".")[0]) and i[1] == "" for i in rinv):
+            continue   # libcst may import the module (`import a.b`) instead of the name to avoid a clash
+        out.append(("confinement", "stub-import-lost:" + case["stub"], f"the stub imports {sname} from {smod}; the result imports it nowhere (neither at module level nor under TYPE_CHECKING)"))
     # 4. the result executes and behaves as before
     ns_o: Dict[str, Any] = {"__name__": "c16_orig"}
     ns_r: Dict[str, Any] = {"__name__": "c16_res"}
@@ -223,7 +237,7 @@ def run_case(res: Result, ctx: Ctx, ci: int, c, srcdir: Path) -> None:
     del sys.modules[modname]
 
 
-def run_seq(res: Result, ctx: Ctx, qi: int, pl: str, fo: str, srcdir: Path) -> None:
+def run_seq(res: Result, ctx: Ctx, qi: int, pl: str, fo: str, srcdir: Path, other_name: bool = False) -> None:
     """Two functions annotated by two successive applications (both with confinement): the second stub needs the import the
     first application already confined. The second result is judged against the FIRST result as its source."""
     from monkeytype.cli import apply_stub_using_libcst
@@ -234,15 +248,16 @@ def run_seq(res: Result, ctx: Ctx, qi: int, pl: str, fo: str, srcdir: Path) -> N
     from typing import List as L
 
     src, expr = gen_source(pl, fo, True)
-    modname = f"c16q_{ctx.seed}_{qi}"
+    modname = f"c16q_{ctx.seed}_{qi}{'_o' if other_name else ''}"
     (srcdir / f"{modname}.py").write_text(src)
     importlib.invalidate_caches()
     mod = importlib.import_module(modname)
-    case = {"ci": -1, "seq": qi, "placement": pl, "form": fo, "use": True, "stub": "second-apply-needs-confined-import", "overwrite": False}
+    case = {"ci": -1, "seq": qi, "placement": pl, "form": fo, "use": True, "stub": "second-apply-needs-" + ("another-name-of-the-confined-module" if other_name else "confined-import"), "overwrite": False, "other_name": other_name}
+    Second = S.Derived2 if other_name else S.Derived
     res.states += 1
     try:
         stub1 = build_module_stubs_from_traces([CallTrace(mod.work, {"x": S.Derived, "y": type(None)}, L[S.Derived], None)], 0)[modname].render()
-        stub2 = build_module_stubs_from_traces([CallTrace(mod.plain, {"z": S.Derived}, S.Derived, None)], 0)[modname].render()
+        stub2 = build_module_stubs_from_traces([CallTrace(mod.plain, {"z": Second}, Second, None)], 0)[modname].render()
         r1 = apply_stub_using_libcst(stub=stub1, source=src, overwrite_existing_annotations=False, confine_new_imports_in_type_checking_block=True)
         r2 = apply_stub_using_libcst(stub=stub2, source=r1, overwrite_existing_annotations=False, confine_new_imports_in_type_checking_block=True)
     except Exception as e:  # noqa: BLE001
@@ -318,6 +333,8 @@ def run(ctx: Ctx) -> Result:
         sq = seq_cases()
         for qi in range(shi, len(sq), nshards):
             run_seq(res, ctx, qi, sq[qi][0], sq[qi][1], srcdir)
+            if sq[qi][1] in ("import_pkg", "from_import"):
+                run_seq(res, ctx, qi, sq[qi][0], sq[qi][1], srcdir, other_name=True)
         rl = [(pl, sk) for pl in REL_PLACEMENTS for sk in REL_STUBS]
         for ri in range(shi, len(rl), nshards):
             run_rel(res, ctx, ri, rl[ri][0], rl[ri][1], srcdir)
@@ -342,7 +359,7 @@ def replay(case: Dict[str, Any], ctx: Ctx) -> List[Violation]:
         return res.violations
     if case.get("ci") == -1:
         sq = seq_cases()
-        run_seq(res, ctx, case["seq"], sq[case["seq"]][0], sq[case["seq"]][1], srcdir)
+        run_seq(res, ctx, case["seq"], sq[case["seq"]][0], sq[case["seq"]][1], srcdir, other_name=bool(case.get("other_name")))
         return res.violations
     cs = all_cases()
     run_case(res, ctx, case["ci"], cs[case["ci"]], srcdir)
